@@ -480,8 +480,9 @@ def S4_E1_error_arm(ctx):
             rows.add('blocked')
             if not adds or keys or ab:
                 bad4.append((p, 'blocked error attempt must park behind its blocker (tx_dependency.add) without abort/key_tx'))
-            elif not has_call(adds[0].d['args'][2], 'Scheduler::latest_unfinalized_blocker'):
-                bad4.append((p, 'blocker is not latest_unfinalized_blocker(blocking_txs)'))
+            elif not (has_call(adds[0].d['args'][2], 'Scheduler::latest_unfinalized_blocker') or mentions_field(adds[0].d['args'][2], 'IncarnationAccesses.blocking_txs')):
+                # (which of the attempt's blockers is chosen is a scheduling hint; that it is one of THEM is what is checked)
+                bad4.append((p, 'the transaction is not parked behind one of the blockers its attempt met'))
             continue
         if not keys:
             bad4.append((p, 'unblocked error attempt does not call key_tx'))
